@@ -151,6 +151,8 @@ def corr(ctx):
         deps_block = [rng.choice(["requests", "flask>=2", "six", "click"]) for _ in range(rng.randint(1, 3))]
         head = rng.choice([["[metadata]\n", "name = x\n", "\n"], ["[metadata]\n", "requires-dist =\n", "    " + deps_block[-1] + "\n", "\n"], []])
         lines = head + ["[options]\n", "install_requires =\n"] + [f"    {d}\n" for d in deps_block] + rng.choice([[], ["python_requires = >=3.8\n"], ["\n", "[options.extras_require]\n", "dev =\n", "    pytest\n"]])
+        if rng.random() < 0.25:
+            lines[-1] = lines[-1].rstrip("\n")      # a file without a final newline (its last line may be the last dependency)
         new = [rng.choice(["security==1.3.1", "defusedxml==0.7.1"])]
         store = PackageStore(FileType.SETUP_CFG, tmp / "setup.cfg", set(), [])
         out = SetupCfgWriter(store, tmp).build_new_lines(list(lines), "\n" + "\n".join(deps_block), [dep(x) for x in new])
@@ -170,10 +172,11 @@ def parse_reqs(kind, text):
     try:
         if kind == "requirements.txt":
             out = []
-            for ln in text.splitlines():
+            for ln in text.replace("\\\n", " ").splitlines():      # a backslash at the end of a line continues it
                 s = ln.split("#")[0].strip()
                 if not s or s.startswith("-"):
                     continue
+                s = s.split(" --")[0].strip()                     # per-requirement options (--hash=...)
                 out.append(canonicalize_name(Requirement(s).name))
             return out
         if kind == "pyproject.toml":
@@ -215,7 +218,8 @@ def poetry_entries(text):
 
 
 EXTRA_MANIFESTS = {
-    "requirements.txt": ["requests==2.31.0\r\nflask>=2\r\n", "requests\ndefusedxml==0.7.1\t# pinned\nflask\n", "defusedxml==0.7.1# pinned\n", "requests\n\n# trailing comment", "Security==1.0\n", "DEFUSEDXML\nflask_wtf\n", "defusedxml>=0.6 # pinned\n",
+    "requirements.txt": ["requests==2.31.0\r\nflask>=2\r\n", "requests\ndefusedxml==0.7.1\t# pinned\nflask\n", "defusedxml==0.7.1# pinned\n",
+                         "requests\ndefusedxml==0.7.1 \\\n    --hash=sha256:" + "ab" * 32 + "\n", "requests\n\n# trailing comment", "Security==1.0\n", "DEFUSEDXML\nflask_wtf\n", "defusedxml>=0.6 # pinned\n",
                          "black ; python_version > '3.8'\npkg[extra]~=1.0\n", "-r base.txt\n"],
     "pyproject.toml": ['[project]\nname = "x"\nversion = "0.1"\ndependencies = []\n', '[project]\nname = "x"\nversion = "0.1"\ndependencies = [\n  "Defusedxml>=0.1",\n  "requests",\n]\n',
                        '[tool.poetry]\nname = "x"\nversion = "0.1"\n[tool.poetry.dependencies]\npython = "^3.10"\n\n[tool.poetry.group.dev.dependencies]\nmypy = "*"\n',
@@ -225,8 +229,11 @@ EXTRA_MANIFESTS = {
                        # poetry tables that already declare the package, in the constraint spellings poetry accepts
                        f'[tool.poetry]\nname = "x"\nversion = "0.1"\n\n[tool.poetry.dependencies]\npython = "^3.10"\n{name} = "{spec}"\nrequests = "^2"\n'
                        for name, spec in [("defusedxml", "^0"), ("DefusedXML", "^0"), ("defusedxml", "^0.7"), ("Defusedxml", "^0.7.1"), ("defusedxml", ">=0.7"), ("defusedxml", "~0.7"), ("defusedxml", "0.7.1")]],
-    "setup.py": ['from setuptools import setup\nsetup(name="x", install_requires=["requests", "defusedxml"])\n', 'from setuptools import setup\nsetup(name="x")\n'],
-    "setup.cfg": ["[metadata]\nname = x\nrequires-dist =\n    requests\n\n[options]\ninstall_requires =\n    flask\n    requests\n", "[options]\ninstall_requires =\n    requests\n",
+    "setup.py": ['from setuptools import setup\nsetup(name="x", install_requires=["requests", "defusedxml"])\n',
+                 "from setuptools import setup\nsetup(name='x', python_requires='>=3.8', install_requires=['requests', 'defusedxml'])\n",
+                 "from setuptools import setup\nsetup(name='x', install_requires=['requests'])\n", 'from setuptools import setup\nsetup(name="x")\n'],
+    "setup.cfg": ["[metadata]\nname = x\nrequires-dist =\n    requests\n\n[options]\ninstall_requires =\n    flask\n    requests\n",
+                  "[metadata]\nname = x\n\n[options]\ninstall_requires =\n    requests\n    flask",      # no final newline "[options]\ninstall_requires =\n    requests\n",
                   "[options]\ninstall_requires =\n    Defusedxml\n    requests\n", "[metadata]\nname = x\n"],
 }
 
@@ -320,6 +327,8 @@ def search(ctx):
         for k in r["changed"]:
             m = r["manifests"][k]
             layout = "comma" if k == "setup.cfg" and "," in (m["text_before"].split("install_requires", 1) + [""])[1].split("\n")[0] else ("crlf" if "\r\n" in m["text_before"] else "")
+            if k == "requirements.txt" and "\\\n" in m["text_before"]:
+                layout = "backslash-continuation"
             pkg = r["pkg"]
             if k == "setup.cfg" and "requires-dist" in m["text_before"] and pkg in m["text_after"].split("[options]")[0].lower():
                 fail("cfg-inserted-in-wrong-section", "setup.cfg: the requirement was inserted under [metadata] requires-dist, not into install_requires", layout="first-occurrence")
